@@ -72,6 +72,17 @@ Definition step (st : pstate) (e : event) : pstate :=
 Definition run (evs : list event) : pstate := fold_left step evs pinit.
 Definition offered (evs : list event) : list (cand V * link) := rev (p_dists (run evs)).
 
+(* _scan_page_links: the page asked for at [asked] is answered by a response that reports its own address
+   (requests follows redirects: [resp_url] is the address of the page that was served) and whose body the parser
+   turns into the events [resp_events].  The parser is constructed with one address, which every candidate then
+   carries as the first half of its link (LinksHTMLParser.__init__: self.url; handle_data: (self.url, href));
+   WHICH address is read from the source on every run ([pg_base]). *)
+Record response := mkResp { resp_url : string; resp_events : list event }.
+Definition scan_base (asked : string) (r : response) : string :=
+  match pg_base with PBResponseUrl => resp_url r | PBAskedUrl => asked end.
+Definition scan_page (asked : string) (r : response) : list (cand V * (string * link)) :=
+  map (fun cl => (fst cl, (scan_base asked r, snd cl))) (offered (resp_events r)).
+
 (* FindLinksRepository._find_all_links over a directory listing: the candidate's file name
    is parsed from the full path, its link is (src, join(src, filename)) *)
 Definition path_join (dir f : string) : string :=
